@@ -220,19 +220,25 @@ def evaluate_workload(case, variant="plain"):
         bound = start + 4 * largest + (4 << 20)
     elif w == "w2":
         largest = case["size"]
-        bound = start + 8 * largest + (4 << 20)      # two live objects; calibrated: the unchanged tree needs about 3 x live
+        # two live objects plus the one being allocated, each needing room inside one segment, segments doubling: the unchanged
+        # tree reaches start + 6..8.4 x size (sizes 1-9 MB); a collector that stops recycling exceeds 50 x within the 5 rounds
+        bound = start + 12 * largest + (8 << 20)
     else:
         largest = case["b"]
-        bound = start + 4 * largest + (4 << 20)
+        bound = start + 6 * largest + (4 << 20)
     if max(totals) > bound:
         return E.Found("leak/workload-%s-exceeds-bound" % w, "heap total reaches %d, bound %d (start %d, largest request %d): freed memory is not reused\nrows=%r\nprogram:\n%s"
                        % (max(totals), bound, start, largest, rows, prog)), "ok"
     if w in ("w1", "w2") and totals[-1] > 1.25 * totals[0] + largest:
         return E.Found("leak/workload-%s-keeps-growing" % w, "heap total grows from %d (first round) to %d (last round) under a stationary workload\nrows=%r\nprogram:\n%s"
                        % (totals[0], totals[-1], rows, prog)), "ok"
-    if w == "w3" and totals[1] > totals[0] + (64 << 10):
-        return E.Found("leak/freed-chunk-not-reused", "after dropping and collecting a %d-byte object the request for %d bytes grew the heap from %d to %d\nprogram:\n%s"
-                       % (case["a"], case["b"], totals[0], totals[1], prog)), "ok"
+    if w == "w3":
+        # sound only when the first object forced a new segment: that segment (size = the growth) is entirely free again after
+        # the object is dropped and collected, so a request that fits into it must not grow the heap a second time
+        seg = totals[0] - start
+        if seg > 0 and case["b"] <= 0.9 * (seg - (64 << 10)) and totals[1] > totals[0] + (64 << 10):
+            return E.Found("leak/freed-chunk-not-reused", "a %d-byte object opened a new %d-byte segment; after it was dropped and collected the request for %d bytes grew the heap again from %d to %d\nprogram:\n%s"
+                           % (case["a"], seg, case["b"], totals[0], totals[1], prog)), "ok"
     return None, "ok"
 
 
@@ -242,8 +248,9 @@ def gen_workload(rng):
         return {"workload": w, "n": rng.choice([2000, 8000, 16000, 40000]), "step": rng.choice([1, 3, 7, 50]), "rounds": 5}
     if w == "w2":
         return {"workload": w, "size": rng.choice([300000, 1 << 20, 3000000, 4 << 20, 9000000]), "count": rng.choice([6, 20, 40]), "rounds": 5}
-    a = rng.choice([200000, 1 << 20, 3 << 20, 5000000, 12000000])
-    return {"workload": w, "a": a, "b": int(a * rng.choice([1.05, 1.3, 1.6, 1.9]))}
+    # large enough to need a segment of its own (the preloaded heap has a few MB free)
+    a = rng.choice([6 << 20, 9000000, 12 << 20, 20000000])
+    return {"workload": w, "a": a, "b": int(a * rng.choice([1.05, 1.2, 1.4, 1.6]))}
 
 
 def shards(tier, seed, nshards, known):
